@@ -104,4 +104,8 @@ def encodeTbs (d : Decoded) : Bytes :=
     publicKeyEnc d.keyAlg d.keyUnused d.keyBits ++
     tlv 0xA3 (tlv tagSeq (seqs (extItems d))))
 
+/-- `SignedData::encode_ref` around the to-be-signed octets: the certificate as `Cert::to_captured` writes it -/
+def encodeCert (d : Decoded) (signature : Bytes) : Bytes :=
+  tlv tagSeq (encodeTbs d ++ sigAlgEnc ++ tlv tagBitString (0 :: signature))
+
 end Rpki.CertEnc
